@@ -614,6 +614,10 @@ impl DcpsDomainParticipant {
         message_receiver: &MessageReceiver<'_>,
         heartbeat_submessage: &HeartbeatSubmessage,
     ) {
+        // RTPS 8.3.7.5.3: a HEARTBEAT with firstSN <= 0 is invalid (and `first_sn - 1` is computed later)
+        if heartbeat_submessage.first_sn() <= 0 {
+            return;
+        }
         for s in self
             .domain_participant
             .user_defined_subscriber_list
